@@ -33,7 +33,7 @@ META = {
             "is tied to the code by trace acceptance of the real Source+Persister (h_srcack) and by regenerated structural facts.",
     "note": "Proved about the model; the code is tied by acceptance of recorded traces (finite sample) and regenerated facts "
             "(flushNow order and error propagation, Ack/triggerFlush call order, drain condition). Fails on the unfixed tree: "
-            "F1 (failed store Set still commits and acks) and F12 (ack gap after exhausted retries).",
+            "F1 (failed store Set still commits and acks) and F12 (ack gap after exhausted retries). Since then F1 and F16 are repaired in /repo (fix: commits, see known_findings.json 'fixed'); the shared persister batch (several connectors in one flush) is covered by Model/FlushBatch, the loop-shape fact and the srcbatch correspondence; the engine-side clause (no empty position is acknowledged) by the funnel job.",
     "technique": "Lean 4 invariant proofs over an event system + trace-acceptance correspondence against the real code",
 }
 
